@@ -77,7 +77,7 @@ func workRound(r *rng, round int) {
 	for _, i := range inits {
 		w.Add(i)
 	}
-	withDeadline(fmt.Sprintf("Work.Do round %d (n=%d, %d items)", round, n, nItems), 60*time.Second, func() {
+	withDeadline(fmt.Sprintf("Work.Do round %d (n=%d, %d items)", round, n, nItems), 25*time.Second, func() {
 		w.Do(n, func(item any) {
 			i := item.(int)
 			a := atomic.AddInt32(&active, 1)
@@ -141,7 +141,7 @@ func cacheRound(r *rng, round int) {
 		}
 		mu.Unlock()
 	}
-	withDeadline(fmt.Sprintf("Cache round %d", round), 60*time.Second, func() {
+	withDeadline(fmt.Sprintf("Cache round %d", round), 25*time.Second, func() {
 		for gi := 0; gi < nG; gi++ {
 			wg.Add(1)
 			go func(gi int) {
